@@ -39,6 +39,7 @@ PROFILES = {
             'p_qcap': 0.6, 'p_ccm': 0.4, 'p_cct': 0.3, 'p_renege': 0.3},
     'c17ncm': {'trackers': ['NodeClassMatrix'], 'n_classes': [2, 3], 'p_ccm': 1.0, 'p_cct': 0.8, 'p_qcap': 0.5, 'p_renege': 0.3, 'p_prio': 0.3,
                'p_kinds': (0.75, 0.05, 0.2, 0.0), 'p_ps': 0.0},
+    'c02ps': {'p_ps': 1.0, 'p_ps_node': 0.6, 'p_qcap': 0.7, 'qcaps': [0, 0, 1, 2], 'n_nodes': [2, 3], 'arr_scale': 0.6, 'p_prio': 0.0},
     'c14': {'run_methods': ['time', 'time', 'customers'], 'horizons': [0.05, 0.5, 1.0, 5.0, 10.0, 20.0, 30.0, 50.0]},
     'c14lattice': {'run_methods': ['time', 'time', 'customers'], 'p_lattice': 1.0, 'horizons': [0.5, 1.0, 2.0, 3.5, 5.0, 10.0, 20.0]},
     'c14wide': {'run_methods': ['time', 'customers'], 'p_ps': 0.2, 'p_prio': 0.7, 'p_prio_preempt': 0.8, 'p_renege': 0.5, 'p_baulk': 0.4,
@@ -69,7 +70,7 @@ def scope_c11(spec, f):
 # property -> (list of (profile, weight), scope predicate, deciding counters (any > 0 makes a run non-trivial))
 PLANS = {
     'C01': ([('generic', 4), ('lattice', 2), ('ring', 2), ('c11', 1), ('c12', 1)], scope_all, ['kinds.accept']),
-    'C02': ([('generic', 4), ('lattice', 2), ('c12', 2), ('c11', 1), ('ring', 1)], scope_all, ['C02.records']),
+    'C02': ([('generic', 4), ('lattice', 2), ('c12', 2), ('c11', 1), ('ring', 1), ('c02ps', 1)], scope_all, ['C02.records']),
     'C03': ([('generic', 4), ('ring', 2), ('c11', 2), ('c13', 1), ('c12', 1)], scope_all, ['C03.records']),
     'C04': ([('generic', 3), ('c04util', 4), ('ring', 2), ('c12', 1)], scope_all, ['C04.attaches']),
     'C05': ([('c05', 5), ('generic', 3), ('c12', 1), ('c13', 1)], scope_all, ['C05.snapshots_with_waiting']),
